@@ -31,7 +31,9 @@ REQUIRED = ["KV.C17.sem_accounting", "KV.C17.never_over_cap", "KV.C17.fifo_exact
             "KV.C17.wait_eintr_transparent", "KV.C17.stream_records",
             "KV.C17.steplevel_refines_atomic", "KV.C17.pool_exactly_once_steplevel",
             "KV.C17.chain_stream_transducer", "KV.C17.chain_ring_steplevel",
-            "KV.C17.steplevel_liveness_partial", "KV.C17.copy_failure_transparent"]
+            "KV.C17.steplevel_liveness_partial", "KV.C17.copy_failure_transparent",
+            "KV.C17.pool_steplevel_no_deadlock", "KV.C17.pool_steplevel_terminates",
+            "KV.C17.chain_steplevel_no_deadlock", "KV.C17.chain_steplevel_terminates"]
 
 HARNESS_EXTRA = [REPO + "/util/" + f for f in (
     "exception.cc", "integer_to_string.cc", "stream/chain.cc", "stream/multi_progress.cc", "stream/io.cc", "file.cc",
